@@ -60,7 +60,7 @@ def drive(rng, requestor, mode):
             ab()
 
     try:
-        depth = rng.choice([0, 1, 2, 3, 3, 3, 3])
+        depth = 3 if mode == "duplex" else rng.choice([0, 1, 2, 3, 3, 3, 3])
         if requestor:
             do(["local", "assocRq"])
             for _ in range(min(depth, 2)):
@@ -77,6 +77,27 @@ def drive(rng, requestor, mode):
             if depth >= 3 and rd.obs()[0] == 3:
                 do(["local", "accept"])
                 ab()
+        if mode == "duplex":
+            # full-duplex data transfer in Sta6: the local user queues P-DATA requests back to back (as the DIMSE provider
+            # does for a fragmented message or a stream of Pending responses) while the peer's P-DATA PDUs arrive at any
+            # moment; nothing else happens, so nothing excuses the reactor from surviving
+            if rd.obs()[0] == 6:
+                for _ in range(rng.choice([6, 12, 20])):
+                    if not rd.dul.is_alive():
+                        break
+                    k = rng.random()
+                    if k < 0.30:
+                        for _ in range(rng.choice([1, 2, 2, 3])):
+                            do(["local", "pdata"])
+                    elif k < 0.55:
+                        do(["pdu", 10, False])
+                    elif k < 0.80:
+                        do("a")
+                    else:
+                        do("b")
+                for _ in range(12):
+                    ab()
+            return eff, obs, list(rd.errors)
         # directed prefix towards the release / collision states (Sta7..Sta12), which a uniform walk rarely reaches
         toured = False
         if rd.obs()[0] == 6 and rng.random() < 0.4:
@@ -258,8 +279,8 @@ def flush(ctx, pending):
 def run(ctx):
     ctx.rule = (
         "adaptively generated schedules of reactor micro-steps (phase A / phase B) and environment steps (peer PDUs "
-        "valid/invalid, EOF, send failure, ARTIM expiry, local primitives) in three modes (sync-admissible, peer-only, "
-        "racy), requestor and acceptor, interpreted in lockstep on the real DUL thread and on the Lean model; "
+        "valid/invalid, EOF, send failure, ARTIM expiry, local primitives) in four modes (sync-admissible, peer-only, "
+        "racy, full-duplex P-DATA in Sta6), requestor and acceptor, interpreted in lockstep on the real DUL thread and on the Lean model; "
         "non-trivial = at least 6 effective steps"
     )
     ctx.assumptions.append("the lockstep hooks serialise the reactor with the environment: GIL hand-over points inside one phase are not explored")
@@ -275,7 +296,7 @@ def run(ctx):
         pending.append((case, obs))
     for i in range(ctx.n(900, 12000)):
         requestor = ctx.rng.random() < 0.5
-        mode = ctx.rng.choice(["sync", "sync", "peer", "peer", "racy"])
+        mode = ctx.rng.choice(["sync", "sync", "peer", "peer", "racy", "duplex"])
         check(ctx, requestor, mode, pending)
     flush(ctx, pending)
 
